@@ -34,10 +34,12 @@ class SeqRef:
 
 class PROP(PropCheck):
     id = "C04"
-    theorems = []
+    theorems = ["C04_index_below_one", "C04_no_element_at_usize_max", "C04_nth_N_spec", "C04_read_list", "C04_read_string",
+                "C04_write_list", "C04_heap_set_frame", "C04_append_spec", "C04_insert_spec", "C04_remove_spec", "C04_remove_in_range",
+                "C04_length_spec", "C04_length_string_spec", "C04_concat_fresh", "C04_alloc_frame", "C04_assign_changes_no_cell"]
     coq_imports = ["Obs"]
     model_targets = ["theories/Obs.vo"]
-    prop_targets = []
+    prop_targets = ["theories/Props/C04.vo"]
     harness_mode = "run"
     trusted_base = [
         "Coq 8.16.1 kernel and bytecode VM; primitive floats evaluated by the VM",
